@@ -107,6 +107,23 @@ _R8 = {
 }
 for _p, _t in _R8.items():
     CHECKS[_p]["text"] = CHECKS[_p]["text"] + _t
+# ---- clauses added in round 9
+_R9 = {
+ "C02": " Sizes that the row count does not determine (the number of feature tensors) are free in the exhaustive evaluation of the row-block expressions.",
+ "C03": " norm_eps is a STRICT threshold (an inclusive test, isclose(s, 0, atol=eps), is reported); the configuration forward computes with is read at call time (a constructor parameter kept as a public attribute and also frozen into a partial / derived field that forward uses is reported).",
+ "C06": " A requested collection is not de-duplicated by a key computed from its elements (data_ptr, shape, stride).",
+ "C07": " (see C02 for free collection sizes.)",
+ "C11": " A store to a field of an object created during the call (a local helper object) is not a store to state.",
+ "C12": " Guards on names bound by the same loop target as the successor (`for child, output_nr in next_functions`) count as guards on the successor; a dictionary used as 'visited set + flag' is read as a visited set and a result set.",
+ "C13": " A graph differentiated once receives the caller's retain_graph itself: combined with anything else (`retain_graph or len(features) > 1`) it is reported.",
+ "C14": " A mutator is looked up the way python does (own class, then bases left to right): a blocking mixin listed after dict is reported; one member object listed twice in a conjunction is rejected; GradientVectors / JacobianMatrices fix the NUMBER of axes by an equality (a lower bound is reported); the per-pair check may be one comparison in TensorDict against an 'expected shape' hook of the typed classes.",
+ "C15": " Building blocks materialise Iterable parameters before any other traversal (rule P). Rows written block by block into a pre-allocated buffer are followed by position in the instance runs; rows never written are reported.",
+ "C16": " A slice applied to its own result in a loop over range(b) (`x = x[1:-1]`) is folded once, multiplied by the trip count.",
+ "C18": " GradDrop without a loop may blend the leak with torch.lerp (the reversed arguments are reported); MGDA may keep the vertex as an index (`alpha = (1-g)·alpha; alpha[t] += g`) and drive the loop with a flag; PCGrad may keep the projected row in a small helper object.",
+ "C19": " The cap bound may be handed to a helper as a parameter: every call must pass self.max_norm there (a call relying on the default is reported); hyper-parameters may live in a frozen configuration object.",
+}
+for _p, _t in _R9.items():
+    CHECKS[_p]["text"] = CHECKS[_p]["text"] + _t
 NA_PENDING = "check not built yet in this commit (planned, see DESIGN.md section 5)"
 NOT_APPLICABLE = {
  "C04": "Non-conflict is a numerical inequality on the outputs of a QP, a Frank-Wolfe loop and a conic solver with input-dependent allowances; no clause of it is visible in the shape of the code.",
